@@ -467,6 +467,63 @@ Definition run_add (a : sx) : sx :=
   | _ => sx_err "add"
   end.
 
+(* ---- the exported entry points that wait, under best-connection switches ----
+   (strategy nconns entry tgt (pre-event ...) (event ...)): a fresh pool (all heads 0, connection 0 is the
+   choice, nobody alive); the pre-events happen before the call, the events while it waits.
+   entry 0 = BestMasterchainClient, 1 = BestClientByAccountID (no archive), 2 = BestClientByBlockID,
+   3 = WaitMasterchainSeqno(tgt).  Events: ('sethead c h) ('conn c alive rtt) ('tick).
+   Result: (status head conn): the head handed to the caller is the head it RECEIVED (at or beyond what
+   it waits for, reported by the connection that was the best one then), the client is the one of the
+   connection that was the choice when the call started. *)
+Section Entry.
+  Variable strat : strategy.
+  Variable nconns : nat.
+  Variable tgt : nat -> N.
+
+  Definition ev_step (sa : state * list (bool * Z)) (e : sx) : state * list (bool * Z) :=
+    let '(s, obs) := sa in
+    match e with
+    | SL [SA nm; SN c; SN h] =>
+        if String.eqb nm "sethead" then (deliver strat nconns tgt 1 s (small c) h, obs) else sa
+    | SL [SA nm; SN c; SB al; SZ r] =>
+        if String.eqb nm "conn" then (s, set_nth_obs (small c) (al, r) obs) else sa
+    | SL [SA nm] =>
+        if String.eqb nm "tick"
+        then (steps strat nconns tgt s [LTick; LUpdLock; LUpdDone obs []; LRecv 0], obs) else sa
+    | _ => sa
+    end.
+
+  Definition entry_result (waits_for_head : bool) (returns_head : bool) (pre evs : list sx) : sx :=
+    let '(s1, obs1) := fold_left ev_step pre (init_state (fun _ => 0%N) (if Nat.eqb nconns 0 then None else Some 0), []) in
+    match best s1 with
+    | None => SL [SA "noconn"; SA "none"; SA "none"]
+    | Some cap =>
+        let hd (h : N) := if returns_head then SN h else SA "none" in
+        if waits_for_head && (0 <? head s1 cap)%N
+        then SL [SA "nil"; hd (head s1 cap); sx_nat cap]             (* initialised: no wait *)
+        else
+          let s2 := steps strat nconns tgt s1 (subscribe_steps 0) in
+          let '(s3, _) := fold_left ev_step evs (s2, obs1) in
+          let s4 := steps strat nconns tgt s3 (return_steps 0 (if waits_for_head then RCancel else RTimeout)) in
+          match wpc s4 0, wgot s4 0 with
+          | WDone ROk, Some m => SL [SA "nil"; hd (snd m); if waits_for_head then sx_nat cap else SA "none"]
+          | WDone RTimeout, _ => SL [SA "timeout"; SA "none"; SA "none"]
+          | WDone RCancel, _ => SL [SA "cancel"; SA "none"; SA "none"]
+          | _, _ => sx_err "entry"
+          end
+    end.
+End Entry.
+
+Definition run_entry (a : sx) : sx :=
+  match a with
+  | SL [SN st; SN nc; SN en; SN tg; SL pre; SL evs] =>
+      let e := small en in
+      if Nat.eqb e 3
+      then entry_result (strat_of st) (small nc) (fun _ => tg) false false pre evs
+      else entry_result (strat_of st) (small nc) (fun _ => 1%N) true (negb (Nat.eqb e 2)) pre evs
+  | _ => sx_err "entry args"
+  end.
+
 (* deterministic reproductions of the repaired defects: the model has none *)
 Definition run_repro (a : sx) : sx := SA "ok".
 
@@ -477,5 +534,6 @@ Definition run (name : string) (a : sx) : sx :=
   else if is "c13.walk" then run_walk a
   else if is "c13.wait" then run_wait a
   else if is "c13.add" then run_add a
+  else if is "c13.entry" then run_entry a
   else if is "c13.repro" then run_repro a
   else sx_err "unknown case kind".
